@@ -131,6 +131,21 @@ func devMain(args []string) int {
 			return 2
 		}
 		return 0
+	case "pairspec":
+		rep := &Report{Prop: "dev", Tier: "quick", Seed: envSeed(), Start: time.Now(), Notes: map[string]int{}, NoteEx: map[string]string{}}
+		mode := "dry"
+		if len(args) > 1 {
+			mode = args[1]
+		}
+		cats := fam.RandomFamily(rep.Seed*31+5, 40, fam.Presets["small"])
+		for _, c := range cats {
+			c.Opts = []cat.Opts{{Recover: true}}
+		}
+		pairSpecStage(rep, mode, cats, 2)
+		for _, e := range rep.Infra {
+			fmt.Println("INFRA:", firstLines(e, 30))
+		}
+		return len(rep.Infra)
 	case "selftest":
 		rep := &Report{Prop: "dev", Tier: "quick", Seed: envSeed(), Start: time.Now(), Notes: map[string]int{}, NoteEx: map[string]string{}}
 		bindingSelfTest(rep)
